@@ -31,6 +31,7 @@ import anyio.lowlevel  # noqa: E402
 from .aio_loop import SimDeadlock, SimEventLoop, SimStepLimit  # noqa: E402
 
 warnings.filterwarnings("ignore", message="coroutine .* was never awaited")
+warnings.filterwarnings("ignore", message="Queue full .* when trying to send dispatched event")
 HORIZON = 1.0e7
 
 # ---------------------------------------------------------------------------------------
